@@ -1,0 +1,23 @@
+//go:build verif
+
+package codegen
+
+// Contracts checked by /verif/goavc (comment-only file, built only with -tags verif).
+
+// "The example command never modifies a file that already exists": every file an example generator hands to
+// the renderer is marked SkipExist (File.Render leaves such a file alone when it exists: proved in package codegen).
+//@ func exampleCLI
+//@   opt inline none
+//@   property C09
+//@   ensures* user.owned.file: result != nil ==> result.SkipExist
+//@   modifies all
+//@ func exampleServer
+//@   opt inline none
+//@   property C09
+//@   ensures* user.owned.file: result != nil ==> result.SkipExist
+//@   modifies all
+//@ func dummyMultipartFile
+//@   opt inline none
+//@   property C09
+//@   ensures* user.owned.file: result != nil ==> result.SkipExist
+//@   modifies all
